@@ -8,6 +8,7 @@
 #define MAXEV 2
 #define ENV_ANY_FORMAT 1
 #include "env.h"
+static unsigned vf_token_code(const char *s) { (void)s; return 0; }
 #include REPO_TOKENS_C           /* defines invalid/line_num/fastvar/pdp_c8 and build_mapping */
 #include "map.h"
 #include "spec_tables.h"
